@@ -64,6 +64,7 @@ fn main() {
                 "C12" => props::c12::run(tier, seed),
                 "C15" => props::c15::run(tier, seed),
                 "C19" => props::c19::run(tier, seed),
+                "C20" => props::c20::run(tier, seed),
                 "C16" => props::c16::run(tier, seed),
                 "C17" => props::c17::run(tier, seed),
                 "C18" => props::c18::run(tier, seed),
@@ -114,6 +115,7 @@ fn replay(path: &str) -> i32 {
             "C12" => all.extend(props::c12::all_scenarios(tier)),
             "C15" => all.extend(props::c15::all_scenarios(tier)),
             "C19" => all.extend(props::c19::all_scenarios(tier)),
+            "C20" => all.extend(props::c20::all_scenarios(tier)),
             "C16" => all.extend(props::c16::all_scenarios(tier)),
             "C17" => all.extend(props::c17::all_scenarios(tier)),
             "C18" => all.extend(props::c18::all_scenarios(tier)),
